@@ -93,8 +93,44 @@ func genCivil() {
 			o2 := sol(y, m, d, t.h, t.mi, (t.s+1)%60)
 			emit("before", fmt.Sprintf("%s %s", a6, solarStr(o2)), b2s(s.IsBefore(o2)))
 			emit("after", fmt.Sprintf("%s %s", a6, solarStr(o2)), b2s(s.IsAfter(o2)))
+			// lexicographic family: the first k fields equal, field k differs, the rest independent (often in the opposite order)
+			for _, pr := range lexPairs(y, m, d, t) {
+				emit("before", solarStr(pr[0])+" "+solarStr(pr[1]), b2s(pr[0].IsBefore(pr[1])))
+				emit("after", solarStr(pr[0])+" "+solarStr(pr[1]), b2s(pr[0].IsAfter(pr[1])))
+			}
 		}
 	}
+}
+
+// lexPairs: for one pivot field k (chosen at random; all six in turn over a run) a pair of moments that agree on the fields
+// before k, differ on k, and have independent later fields; both orders. Pairs that are not valid dates are skipped.
+func lexPairs(y, m, d int, t hms) [][2]*calendar.Solar {
+	a := [6]int{y, m, d, t.h, t.mi, t.s}
+	b := a
+	k := rng.Intn(6)
+	lim := [6][2]int{{1, 9998}, {1, 12}, {1, 28}, {0, 23}, {0, 59}, {0, 59}}
+	for i := k; i < 6; i++ {
+		b[i] = lim[i][0] + rng.Intn(lim[i][1]-lim[i][0]+1)
+	}
+	if rng.Intn(2) == 0 { // later fields deliberately ordered against field k
+		for i := k + 1; i < 6; i++ {
+			ai := a[i]
+			if ai > lim[i][1] {
+				ai = lim[i][1]
+			}
+			if b[k] < a[k] {
+				b[i] = ai + rng.Intn(lim[i][1]-ai+1)
+			} else {
+				b[i] = lim[i][0] + rng.Intn(ai-lim[i][0]+1)
+			}
+		}
+	}
+	if !validYmd(b[0], b[1], b[2]) || !validYmd(a[0], a[1], a[2]) {
+		return nil
+	}
+	sa := sol(a[0], a[1], a[2], a[3], a[4], a[5])
+	sb := sol(b[0], b[1], b[2], b[3], b[4], b[5])
+	return [][2]*calendar.Solar{{sa, sb}, {sb, sa}}
 }
 
 func safeSolar(f func() *calendar.Solar) (r *calendar.Solar) {
@@ -248,6 +284,24 @@ func searchC04() {
 				}
 				return true, "", ""
 			})
+			for _, pr := range lexPairs(y, m, d, t) {
+				pa, pb := pr[0], pr[1]
+				chk("order-lex", solarStr(pa)+" vs "+solarStr(pb), func() (bool, string, string) {
+					fa := [6]int{pa.GetYear(), pa.GetMonth(), pa.GetDay(), pa.GetHour(), pa.GetMinute(), pa.GetSecond()}
+					fb := [6]int{pb.GetYear(), pb.GetMonth(), pb.GetDay(), pb.GetHour(), pb.GetMinute(), pb.GetSecond()}
+					c := 0
+					for i := 0; i < 6 && c == 0; i++ {
+						if fa[i] < fb[i] {
+							c = -1
+						} else if fa[i] > fb[i] {
+							c = 1
+						}
+					}
+					got := fmt.Sprintf("IsBefore=%v IsAfter=%v", pa.IsBefore(pb), pa.IsAfter(pb))
+					exp := fmt.Sprintf("IsBefore=%v IsAfter=%v", c < 0, c > 0)
+					return got == exp, got, exp
+				})
+			}
 			nh := rng.Intn(200001) - 100000
 			chk("nexthour", fmt.Sprintf("%s h=%d", in, nh), func() (bool, string, string) {
 				r := s.NextHour(nh)
